@@ -405,13 +405,14 @@ Section Specs.
   Ltac hpre := apply hoare_pure; intros ->.
 
   Lemma h_getfd p fd : hoare (st p) (sys_getfd fd)
-    (fun r w' => st p w' /\ r = match pr_fds p !! fd with Some d => (if f_cloexec d then FD_CLOEXEC else 0) | None => -1 end) QS.
+    (fun r w' => st p w' /\ r = match pr_fds p !! fd with Some d => (if f_cloexec d then FD_CLOEXEC else 0) | None => -1 end
+                 /\ (pr_fds p !! fd = None -> pr_errno (curp w') = EBADF)) QS.
   Proof.
     unfold sys_getfd. hb; [apply h_prelude|]. intros f. hpre.
     hb; [apply h_gets_fds|]. intros t. hpre.
     destruct (pr_fds p !! fd) as [d|].
-    - eapply hoare_conseq; [| | |apply h_done]; [intros w S; exact S|intros a w [-> S]; auto|auto].
-    - eapply hoare_conseq; [| | |apply h_fail]; [intros w S; exact S|intros a w (-> & S & _); auto|auto].
+    - eapply hoare_conseq; [| | |apply h_done]; [intros w S; exact S|intros a w [-> S]; split; [exact S|split; [reflexivity|intros X; discriminate X]]|auto].
+    - eapply hoare_conseq; [| | |apply h_fail]; [intros w S; exact S|intros a w (-> & S & He); auto|auto].
   Qed.
 
   Lemma h_setfd p fd v : hoare (st p) (sys_setfd fd v)
@@ -440,39 +441,37 @@ Section Specs.
 
   Lemma h_dup2 p a b : hoare (st p) (sys_dup2 a b)
     (fun r w' => match pr_fds p !! a with
-                 | Some d => if b <? 0 then r = -1 /\ st p w'
+                 | Some d => if b <? 0 then r = -1 /\ st p w' /\ pr_errno (curp w') = EBADF
                              else if a =? b then r = b /\ st p w'
                              else r = b /\ st (pr_with_fds (<[b := fd_set_cloexec false d]> (pr_fds p)) p) w'
-                 | None => r = -1 /\ st p w' end) QS.
+                 | None => r = -1 /\ st p w' /\ pr_errno (curp w') = EBADF end) QS.
   Proof.
     unfold sys_dup2. hb; [apply h_prelude|]. intros f. hpre.
     hb; [apply h_gets_fds|]. intros t. hpre.
     destruct (pr_fds p !! a) as [d|].
-    - destruct (b <? 0).
-      { eapply hoare_conseq; [| | |apply h_fail]; [intros w S; exact S|intros r w (-> & S & _); auto|auto]. }
+    - destruct (b <? 0); [apply h_fail|].
       destruct (a =? b).
       { eapply hoare_conseq; [| | |apply h_done]; [intros w' S'; exact S'|intros r w' [-> S']; auto|auto]. }
       hb; [apply h_set_cur_fds|]. intros u0; cbv beta. eapply hoare_conseq; [| | |apply h_done]; [intros w' S'; exact S'|intros r w' [-> S']; auto|auto].
-    - eapply hoare_conseq; [| | |apply h_fail]; [intros w S; exact S|intros r w (-> & S & _); auto|auto].
+    - apply h_fail.
   Qed.
 
   Lemma h_dupfd p fd minfd cx : hoare (st p) (sys_dupfd fd minfd cx)
     (fun r w' => match pr_fds p !! fd with
                  | Some d =>
                      let n := lowest_free_ge (pr_fds p) (Z.max 0 minfd) (size (pr_fds p)) in
-                     if (0 <=? pr_rlimit p) && (pr_rlimit p <=? n) then r = -1 /\ st p w'
+                     if (0 <=? pr_rlimit p) && (pr_rlimit p <=? n) then r = -1 /\ st p w' /\ pr_errno (curp w') = EMFILE
                      else r = n /\ st (pr_with_fds (<[n := fd_set_cloexec cx d]> (pr_fds p)) p) w'
-                 | None => r = -1 /\ st p w' end) QS.
+                 | None => r = -1 /\ st p w' /\ pr_errno (curp w') = EBADF end) QS.
   Proof.
     unfold sys_dupfd. hb; [apply h_prelude|]. intros f. hpre.
     hb; [apply h_get|]. intros w0. apply hoare_pre. intros w [-> S]. 
     pose proof S as (_ & _ & E). rewrite (noerr_fds _ _ E), (noerr_rlimit _ _ E).
     eapply hoare_conseq with (P := st p); [intros ? ->; exact S| | |]; [intros a w' H; exact H|intros w' H; exact H|].
     destruct (pr_fds p !! fd) as [d|].
-    - cbn zeta. destruct ((0 <=? pr_rlimit p) && (pr_rlimit p <=? _)).
-      { eapply hoare_conseq; [| | |apply h_fail]; [intros w' S'; exact S'|intros r w' (-> & S' & _); auto|auto]. }
+    - cbn zeta. destruct ((0 <=? pr_rlimit p) && (pr_rlimit p <=? _)); [apply h_fail|].
       hb; [apply h_set_cur_fds|]. intros u0; cbv beta. eapply hoare_conseq; [| | |apply h_done]; [intros w' S'; exact S'|intros r w' [-> S']; auto|auto].
-    - eapply hoare_conseq; [| | |apply h_fail]; [intros w' S'; exact S'|intros r w' (-> & S' & _); auto|auto].
+    - apply h_fail.
   Qed.
 
   Lemma h_getrlimit p : hoare (st p) sys_getrlimit (fun r w' => r = (0, pr_rlimit p) /\ st p w') QS.
@@ -507,4 +506,177 @@ Section Specs.
       change (noerr (pr_with_disp ?x q)) with (pr_with_disp x (noerr q)). rewrite Hd, H0. reflexivity.
     - intros u0; cbv beta. apply h_done.
   Qed.
+
+  Lemma h_sigmask p how ns : hoare (st p) (sys_sigmask how ns)
+    (fun r w' => exists m, st (pr_with_mask m p) w' /\
+                 (fst r = 0 -> ns = Some [] -> how = SIG_SETMASK -> m = [])) QS.
+  Proof.
+    unfold sys_sigmask. hb; [apply h_prelude|]. intros f. hpre.
+    hb; [apply h_get|]. intros w0. apply hoare_pre. intros w [-> S].
+    pose proof S as (_ & _ & E). rewrite (noerr_mask _ _ E).
+    eapply hoare_conseq with (P := st p); [intros ? ->; exact S|intros a w' X; exact X|intros w' X; exact X|].
+    assert (Hlog : forall args r outs, hoare (st p) (log CSigmask args [] r outs 0) (fun _ w' => st p w') QS).
+    { intros args r outs w1 (W1 & F1 & E1). cbn. split; [apply wf_with_trace, W1|]. split; [exact F1|exact E1]. }
+    destruct ns as [s|].
+    - destruct ((how =? SIG_SETMASK) || (how =? SIG_BLOCK) || (how =? SIG_UNBLOCK)) eqn:Eh.
+      + hb; [apply (h_upd p _ (nice_with_mask _))|]. intros u; cbv beta.
+        hb.
+        * intros w1 (W1 & F1 & E1). cbn. instantiate (1 := fun _ w' => st (pr_with_mask _ p) w'). cbn.
+          split; [apply wf_with_trace, W1|]. split; [exact F1|exact E1].
+        * intros u1; cbv beta. apply hoare_ret. intros w1 S1. eexists. split; [exact S1|].
+          cbn. intros _ Hs Hh. injection Hs as ->. subst how. cbn. reflexivity.
+      + hb; [apply Hlog|]. intros u; cbv beta. apply hoare_ret. intros w1 S1. exists (pr_mask p).
+        split; [destruct p; exact S1|]. cbn. unfold EINVAL. intros Hx. discriminate.
+    - hb; [apply Hlog|]. intros u; cbv beta. apply hoare_ret. intros w1 S1. exists (pr_mask p).
+      split; [destruct p; exact S1|]. intros _ Hx. discriminate.
+  Qed.
+
+  Lemma h_chdir p path : hoare (st p) (sys_chdir path) (fun r w' => exists c, st (pr_with_cwd c p) w') QS.
+  Proof.
+    unfold sys_chdir. hb; [apply h_prelude|]. intros f. hpre.
+    hb; [apply h_get|]. intros w0. apply hoare_pre. intros w [-> S].
+    eapply hoare_conseq with (P := st p); [intros ? ->; exact S|intros a w' X; exact X|intros w' X; exact X|].
+    destruct (fs_lookup _ w) as [[]|].
+    all: try (eapply hoare_conseq; [| | |apply h_fail]; [intros w1 S1; exact S1|intros r w1 (_ & S1 & _); exists (pr_cwd p); destruct p; exact S1|auto]).
+    hb; [apply (h_upd p _ (nice_with_cwd _))|]. intros u; cbv beta.
+    eapply hoare_conseq; [| | |apply h_done]; [intros w1 S1; exact S1|intros r w1 [_ S1]; eexists; exact S1|auto].
+  Qed.
+
+  Lemma h_set_environ p e : hoare (st p) (set_environ e) (fun _ w' => st (pr_with_env e p) w') QS.
+  Proof. apply h_upd. apply nice_with_env. Qed.
 End Specs.
+
+(* ---- write: children may run while the call blocks; the caller's record is untouched ---- *)
+Definition wr_world (r : write_res) : world :=
+  match r with WDone _ w | WErr _ w | WHang w | WFuel w => w end.
+
+Lemma keeps_put_runs k q rs w : keeps k w (put_runs q rs w).
+Proof. unfold put_runs. apply keeps_set_pipe. Qed.
+Lemma flat_put_runs q rs w : flat (put_runs q rs w) = flat w.
+Proof. reflexivity. Qed.
+
+Lemma write_loop_frame k fuel q nb : forall data written w, lib_at k w ->
+  keeps k w (wr_world (write_loop fuel q nb data written w)) /\ flat (wr_world (write_loop fuel q nb data written w)) = flat w.
+Proof.
+  induction fuel as [|f IH]; intros data written w L; cbn [write_loop]; [split; [apply keeps_refl|reflexivity]|].
+  destruct (negb (has_reader q w)). { destruct (written =? 0); split; try apply keeps_refl; reflexivity. }
+  destruct (runs_len data <=? 0). { split; [apply keeps_refl|reflexivity]. }
+  cbn zeta.
+  destruct (write_need (runs_len data) <=? pipe_free_cap (w_pipecap w) (get_pipe q w)).
+  - destruct (take_runs _ data) as [a rest].
+    set (w1 := put_runs q a w).
+    assert (K1 : keeps k w w1) by apply keeps_put_runs.
+    assert (L1 : lib_at k w1) by (eapply lib_at_keeps; eassumption).
+    destruct nb. { split; [exact K1|reflexivity]. }
+    destruct (runs_len data - _ <=? 0). { split; [exact K1|reflexivity]. }
+    pose proof (keeps_block_until k (pipe_writable_for q (write_need (runs_len data - Z.min (runs_len data) (pipe_free_cap (w_pipecap w) (get_pipe q w))))) (-1) w1 L1) as KB.
+    pose proof (flat_block_until (pipe_writable_for q (write_need (runs_len data - Z.min (runs_len data) (pipe_free_cap (w_pipecap w) (get_pipe q w))))) (-1) w1) as FB.
+    destruct (block_until _ (-1) w1) as [w2|w2|w2|w2]; cbn [blocked_world wr_world] in *.
+    + destruct (IH rest (written + Z.min (runs_len data) (pipe_free_cap (w_pipecap w) (get_pipe q w))) w2 (lib_at_keeps _ _ _ L1 KB)) as [K2 F2].
+      split; [eapply keeps_trans; [exact K1|eapply keeps_trans; [exact KB|exact K2]]|rewrite F2, FB; reflexivity].
+    + split; [exact (keeps_trans _ _ _ _ K1 KB)|rewrite FB; reflexivity].
+    + split; [exact (keeps_trans _ _ _ _ K1 KB)|rewrite FB; reflexivity].
+    + split; [exact (keeps_trans _ _ _ _ K1 KB)|rewrite FB; reflexivity].
+  - destruct nb. { destruct (written =? 0); split; try apply keeps_refl; reflexivity. }
+    pose proof (keeps_block_until k (pipe_writable_for q (write_need (runs_len data))) (-1) w L) as KB.
+    pose proof (flat_block_until (pipe_writable_for q (write_need (runs_len data))) (-1) w) as FB.
+    destruct (block_until _ (-1) w) as [w2|w2|w2|w2]; cbn [blocked_world wr_world] in *.
+    + destruct (IH data written w2 (lib_at_keeps _ _ _ L KB)) as [K2 F2].
+      split; [eapply keeps_trans; eassumption|rewrite F2, FB; reflexivity].
+    + split; [exact KB|exact FB].
+    + split; [exact KB|exact FB].
+    + split; [exact KB|exact FB].
+Qed.
+
+Lemma st_frame p w w' : st p w -> keeps (w_cur w) w w' -> flat w' = flat w -> st p w'.
+Proof.
+  intros (W & F & E) K Fl. unfold flat in Fl. injection Fl as _ Fc _ Ff _ _ _ _ _ _.
+  split; [eapply keeps_wf; eassumption|]. split; [congruence|].
+  unfold curp. rewrite Fc. rewrite (keeps_get_proc _ _ _ K). exact E.
+Qed.
+
+Section Specs2.
+  Context {QS : world -> Prop}.
+  Ltac hb := eapply hoare_bind.
+  Ltac hpre := apply hoare_pure; intros ->.
+
+  Lemma h_log p c args sargs r outs b : hoare (st p) (log c args sargs r outs b) (fun _ w' => st p w') QS.
+  Proof. intros w (W & F & E). cbn. split; [apply wf_with_trace, W|]. split; [exact F|exact E]. Qed.
+  Lemma h_set_errno p e : hoare (st p) (set_errno e) (fun _ w' => st p w') QS.
+  Proof.
+    intros w (W & F & E). cbn.
+    assert (W1 : wf (upd_cur (pr_with_errno e) w)) by (apply wf_upd_cur; [exact W|intros q; split; reflexivity]).
+    split; [exact W1|]. split.
+    - unfold upd_cur, upd_proc. destruct (w_procs w !! w_cur w); exact F.
+    - rewrite curp_upd_cur by exact W. unfold noerr in *. destruct (curp w); cbn in *. exact E.
+  Qed.
+
+  Lemma h_write p fd data : hoare (st p) (sys_write fd data) (fun _ w' => st p w') QS.
+  Proof.
+    unfold sys_write. hb; [apply h_prelude|]. intros f. hpre.
+    hb; [apply h_gets_fds|]. intros t. hpre.
+    destruct (pr_fds p !! fd) as [d|].
+    2:{ eapply hoare_conseq; [| | |apply h_fail]; [intros w S; exact S|intros r w (_ & S & _); exact S|intros ? X; exact X]. }
+    destruct (f_obj d).
+    - eapply hoare_conseq; [| | |apply h_fail]; [intros w S; exact S|intros r w (_ & S & _); exact S|intros ? X; exact X].
+    - intros w S. cbv beta.
+      pose proof (write_loop_frame (w_cur w) (Z.to_nat (runs_len data / pipe_atomic) + total_weight w * 2 + 8)%nat p0 (f_nonblock d) data 0 w
+                    (wf_lib_at _ (proj1 S))) as [K Fl].
+      destruct (write_loop _ p0 (f_nonblock d) data 0 w) as [k w1|e w1|w1|w1]; cbn [wr_world] in *; try exact I.
+      + pose proof (st_frame p w w1 S K Fl) as S1.
+        pose proof (h_log p CWrite [fd; runs_len data] [] k [] (w_time w1 - w_time w) w1 S1) as Hl.
+        unfold bind. destruct (log _ _ _ _ _ _ w1); auto; try contradiction.
+      + pose proof (st_frame p w w1 S K Fl) as S1.
+        unfold bind. pose proof (h_set_errno p e w1 S1) as He. destruct (set_errno e w1) as [u w2|w2|w2|y w2]; auto; try contradiction.
+        pose proof (h_log p CWrite [fd; runs_len data] [] (-1) [] (w_time w1 - w_time w) w2 He) as Hl.
+        destruct (log _ _ _ _ _ _ w2); auto; try contradiction.
+    - eapply hoare_conseq; [| | |apply h_done]; [intros w S; exact S|intros r w [_ S]; exact S|intros ? X; exact X].
+    - eapply hoare_conseq; [| | |apply h_done]; [intros w S; exact S|intros r w [_ S]; exact S|intros ? X; exact X].
+    - eapply hoare_conseq; [| | |apply h_done]; [intros w S; exact S|intros r w [_ S]; exact S|intros ? X; exact X].
+  Qed.
+
+  (* _exit: the process stops running library code; its image (if any) is what it was *)
+  Lemma h_exit p code : (forall w', pr_image (curp w') = pr_image p -> QS w') ->
+    hoare (st p) (sys__exit code) (fun _ _ => False) QS.
+  Proof.
+    intros HQ w S. unfold sys__exit.
+    assert (Hpl : hoare (st p) (prelude ;> log CExit [code] [] 0 [] 0) (fun _ w' => st p w') QS).
+    { hb; [apply h_prelude|]. intros f. hpre. apply h_log. }
+    specialize (Hpl w S). destruct ((prelude ;> log CExit [code] [] 0 [] 0) w) as [u w1|w1|w1|y w1]; auto.
+    apply HQ. destruct Hpl as (W1 & _ & E1).
+    unfold kill_proc. rewrite <- (noerr_image _ _ E1).
+    destruct W1 as [(q & Hq & _) _]. unfold curp, get_proc, upd_proc. rewrite Hq. cbn. rewrite lookup_insert. reflexivity.
+  Qed.
+
+  (* execvp: either it fails (-1, state unchanged up to errno) or the process stops running library
+     code with an image taken from its record at that instant *)
+  Lemma h_execvp p prog av :
+    (forall w' im, pr_image (curp w') = Some im ->
+                   im_fds im = map_to_list (exec_fds (pr_fds p)) -> im_mask im = pr_mask p ->
+                   im_disp im = map_to_list (exec_disp (pr_disp p)) -> im_argv im = av ->
+                   im_env im = pr_env p -> im_cwd im = pr_cwd p -> QS w') ->
+    hoare (st p) (sys_execvp prog av) (fun r w' => r = -1 /\ st p w' /\ 0 < pr_errno (curp w')) QS.
+  Proof.
+    intros HQ. unfold sys_execvp. hb; [apply h_prelude|]. intros f. hpre.
+    intros w S. cbv beta.
+    destruct (exec_search w (exec_candidates (curp w) prog) false) as [[path script]|e] eqn:Es.
+    2:{ pose proof (@h_fail QS p CExecvp [] (prog :: av) e w S) as Hf. destruct (fail _ _ _ _ w); auto; try contradiction.
+        destruct Hf as (A & B & C). split; [exact A|]. split; [exact B|]. rewrite C.
+        assert (Hpos : forall cands b x, exec_search w cands b = inr x -> 0 < x).
+        { induction cands as [|c cs IHc]; intros b x Hx; cbn [exec_search] in Hx.
+          - injection Hx as <-. destruct b; [unfold EACCES|unfold ENOENT]; lia.
+          - destruct (fs_lookup c w) as [[]|]; try discriminate; eauto. }
+        eapply Hpos. exact Es. }
+    pose proof (h_log p CExecvp [] (prog :: av) 0 [] 0 w S) as Hl.
+    destruct (log CExecvp [] (prog :: av) 0 [] 0 w) as [u w1|w1|w1|y w1]; auto; try contradiction.
+    destruct S as (W & F & E). destruct Hl as (W1 & F1 & E1).
+    eapply HQ.
+    - rewrite curp_upd_cur by exact W1. cbn. reflexivity.
+    - cbn. rewrite (noerr_fds _ _ E). reflexivity.
+    - cbn. apply (noerr_mask _ _ E).
+    - cbn. rewrite (noerr_disp _ _ E). reflexivity.
+    - reflexivity.
+    - cbn. apply (noerr_env _ _ E).
+    - cbn. apply (noerr_cwd _ _ E).
+  Qed.
+End Specs2.
